@@ -24,7 +24,7 @@ func c09alphabet() []dop {
 	var ops []dop
 	add := func(name string, bulk bool, f func(n *dnode)) { ops = append(ops, dop{name, f, bulk}) }
 	add("sess.Create(s1)", false, func(n *dnode) { n.st.SessionMetadatas().Create("s1", "c1", 1, nil, "m") })
-	add("sess.Create(s2)", false, func(n *dnode) { n.st.SessionMetadatas().Create("s2", "c2", 1, pub("w", "bye"), "m") })
+	add("sess.Create(s2)", false, func(n *dnode) { n.st.SessionMetadatas().Create("s2", "", 1, pub("w", "bye"), "m") })
 	add("sess.Delete(s1)", false, func(n *dnode) { n.st.SessionMetadatas().Delete("s1") })
 	add("sess.Delete(s2)", false, func(n *dnode) { n.st.SessionMetadatas().Delete("s2") })
 	add("sess.Delete(s3)", false, func(n *dnode) { n.st.SessionMetadatas().Delete("s3") })
@@ -97,11 +97,15 @@ func TestC09Broadcasts(t *testing.T) {
 		states := vk.NewSet()
 		nontriv := vk.NewSet()
 		var seqs, steps, bulkMany int64
-		for pm, preload := range []bool{false, true, true} {
+		for pm, preload := range []bool{false, true, true, true} {
 			big := pm == 2
+			frozen := pm == 3 // every operation of the sequence (and the preload) falls within one reading of the clock
 			d := depth
 			if big {
 				d = depth - 2 // the large preload is explored two operations shallower
+			}
+			if frozen {
+				d = depth - 1
 			}
 			complete := SeqsShard(len(ops), d, sh, deadline, func(seq []int) {
 				if wanted != nil {
@@ -111,7 +115,8 @@ func TestC09Broadcasts(t *testing.T) {
 					}
 					ok := false
 					for k := 1; k <= len(nm) && !ok; k++ { // violations are recorded with the prefix that exposed them
-						ok = replayMatch(wanted, map[string]any{"preload": preload, "ops": nm[:k]}) || replayMatch(wanted, map[string]any{"preload": preload, "ops": nm[:k], "drain": "at end"})
+						ok = replayMatch(wanted, map[string]any{"preload": preload, "ops": nm[:k]}) || replayMatch(wanted, map[string]any{"preload": preload, "ops": nm[:k], "drain": "at end"}) ||
+							replayMatch(wanted, map[string]any{"preload": preload, "ops": nm[:k], "clock": "frozen"}) || replayMatch(wanted, map[string]any{"preload": preload, "ops": nm[:k], "drain": "at end", "clock": "frozen"})
 					}
 					if !ok {
 						return
@@ -119,6 +124,7 @@ func TestC09Broadcasts(t *testing.T) {
 				}
 				seqs++
 				dResetClock()
+				dFrozen = frozen
 				a := newDNode("A", 1, 0)
 				m := newDNode("M", 3, 0)
 				// a second origin whose queue is only drained at the end of the sequence: broadcasts stay
@@ -138,7 +144,7 @@ func TestC09Broadcasts(t *testing.T) {
 					before := a.list()
 					var msgs [][]byte
 					if p := vk.Recover(func() { msgs = a.do(func() { op.run(a) }) }); p != nil {
-						rep.Violate(vk.Violation{Sig: "c09-panic:" + opKind(op.name), Msg: fmt.Sprintf("preload=%v after %v: panic %v", preload, names, p), Replay: map[string]any{"preload": preload, "ops": append([]string{}, names...)}})
+						rep.Violate(vk.Violation{Sig: "c09-panic:" + opKind(op.name), Msg: fmt.Sprintf("preload=%v frozen-clock=%v after %v: panic %v", preload, frozen, names, p), Replay: c09desc(preload, frozen, names, false)})
 						return
 					}
 					steps++
@@ -157,8 +163,8 @@ func TestC09Broadcasts(t *testing.T) {
 					if la != lm {
 						kf := ""
 						rep.Violate(vk.Violation{Sig: "c09-mirror-differs:" + opKind(op.name), KF: kf,
-							Msg:    fmt.Sprintf("preload=%v after %v: origin lists %s but the node fed with its broadcasts lists %s", preload, names, la, lm),
-							Replay: map[string]any{"preload": preload, "ops": append([]string{}, names...)}})
+							Msg:    fmt.Sprintf("preload=%v frozen-clock=%v after %v: origin lists %s but the node fed with its broadcasts lists %s", preload, frozen, names, la, lm),
+							Replay: c09desc(preload, frozen, names, false)})
 						return
 					}
 					// every entry whose visible state changed must be named by the broadcast(s) of this operation
@@ -177,18 +183,20 @@ func TestC09Broadcasts(t *testing.T) {
 					for _, k := range changed {
 						if !named[strings.TrimSuffix(k, "#dup")] {
 							rep.Violate(vk.Violation{Sig: "c09-change-without-broadcast:" + opKind(op.name),
-								Msg:    fmt.Sprintf("preload=%v after %v: %s changed on the origin but no broadcast of that operation names it (named: %v)", preload, names, k, keysOf(named)),
-								Replay: map[string]any{"preload": preload, "ops": append([]string{}, names...)}})
+								Msg:    fmt.Sprintf("preload=%v frozen-clock=%v after %v: %s changed on the origin but no broadcast of that operation names it (named: %v)", preload, frozen, names, k, keysOf(named)),
+								Replay: c09desc(preload, frozen, names, false)})
 							return
 						}
 					}
 				}
 				// lazily drained origin: everything it queued is delivered now, in the queue's own order
+				// (not under the frozen clock: subscription changes are stamped with the plain reading, so two of them on one key
+				// are then a genuine tie, and the queue does not keep the order in which they were made)
 				m2.recv(a2.drain()...)
-				if la, lm := a2.list().String(), m2.list().String(); la != lm {
+				if la, lm := a2.list().String(), m2.list().String(); la != lm && !frozen {
 					rep.Violate(vk.Violation{Sig: "c09-pending-broadcast-lost",
 						Msg:    fmt.Sprintf("preload=%v, %v with the queue drained only at the end: origin lists %s but the node fed with its broadcasts lists %s", preload, names, la, lm),
-						Replay: map[string]any{"preload": preload, "ops": append([]string{}, names...), "drain": "at end"}})
+						Replay: c09desc(preload, frozen, names, true)})
 				}
 			})
 			if !complete {
@@ -213,11 +221,23 @@ func TestC09Broadcasts(t *testing.T) {
 		}
 		rep.Bounds["alphabet"] = names
 		rep.Bounds["depth"] = depth
+		rep.Bounds["clock"] = "ticking at every reading; additionally every sequence of length depth-1 (with preload) under a clock that never advances (all changes within one reading), in-order mirror only"
 		rep.Bounds["preload"] = "each sequence from an empty node and from a node holding 2 sessions, 3 subscriptions, 1 retained message of peer 2"
 		rep.Rule = "every operation sequence of length d on node A; after each operation A's queue is drained into mirror M and listings compared; changed keys must be named by that operation's broadcast; states = distinct origin listings; non-trivial = listings reached by a bulk operation that changed >= 2 entries"
 		rep.Floor("bulk_many", 10, int64(rep.Extra["bulk_ops_touching_2plus_entries"].(float64)))
 		rep.Floor("states", 100, rep.States)
 	})
+}
+
+func c09desc(preload, frozen bool, names []string, drainAtEnd bool) map[string]any {
+	d := map[string]any{"preload": preload, "ops": append([]string{}, names...)}
+	if frozen {
+		d["clock"] = "frozen"
+	}
+	if drainAtEnd {
+		d["drain"] = "at end"
+	}
+	return d
 }
 
 func keysOf(m map[string]bool) []string {
